@@ -107,9 +107,12 @@ type Exec struct {
 	ForkSites     map[string]int
 	SlowSites     map[string]float64
 	merge         *mergeState
+	started       time.Time
 	constDone     int
 	constMemo     map[int]*smt.Term
+	loopAssume    int
 	localMerge    map[string]bool
+	linked        map[int]bool
 	noMerge       bool
 	formattedBasketDenoms []*smt.Term
 }
@@ -128,6 +131,7 @@ type Config struct {
 	DebugPath   []int
 	Debug       bool
 	BudgetS     int
+	PathBudgetS int
 	Transcript  string
 }
 
@@ -181,7 +185,7 @@ func (x *Exec) syncConstAxioms() {
 				mag.Quo(mag, new(big.Rat).SetInt(pow10(-d.exp)))
 			}
 			ax = append(ax, B.App("dec_ok", smt.SBool, c), B.Eq(B.App("dec_form", smt.SInt, c), B.Int(int64(d.form))),
-				B.Eq(B.App("dec_neg", smt.SBool, c), B.Bool(d.neg)), B.Eq(B.App("dec_coeff", smt.SInt, c), B.BigInt(d.coeff)),
+				B.Eq(B.App("dec_neg", smt.SBool, c), B.Bool(d.neg)), B.Eq(B.App("dec_coeff", smt.SInt, c), B.BigInt(d.coeff)), B.Eq(B.App("dec_mag", smt.SReal, c), B.RatC(mag)),
 				B.Eq(B.App("dec_exp", smt.SInt, c), B.Int(int64(d.exp))),
 				B.Eq(B.App("dec_plain", smt.SBool, c), B.Bool(!strings.ContainsAny(s, "eE"))))
 		}
@@ -228,6 +232,7 @@ func (x *Exec) Branch(c *smt.Term) bool {
 	if x.merge != nil {
 		return x.mergeBranch(c)
 	}
+	x.checkPathBudget()
 	x.syncConstAxioms()
 	if x.pos < len(x.prefix) {
 		d := x.prefix[x.pos]
@@ -249,6 +254,9 @@ func (x *Exec) Branch(c *smt.Term) bool {
 	}
 	x.pos++
 	nc := x.B.Not(c)
+	if x.Cfg.Debug {
+		fmt.Printf("NEW BRANCH %d at %s steps=%d terms=%d\n", x.pos-1, x.site(), x.Steps, x.B.NumTerms())
+	}
 	t0 := time.Now()
 	defer func() {
 		if d := time.Since(t0).Seconds(); d > 1.0 {
@@ -256,6 +264,7 @@ func (x *Exec) Branch(c *smt.Term) bool {
 		}
 	}()
 	rT := x.S.Check(c)
+	x.checkSolverAlive()
 	if rT == smt.Unsat {
 		x.Trace = append(x.Trace, Decision{Val: 0, N: 2, Fixed: true})
 		x.Assume(nc, "branch")
@@ -265,6 +274,7 @@ func (x *Exec) Branch(c *smt.Term) bool {
 		x.feasUnknown++
 	}
 	rF := x.S.Check(nc)
+	x.checkSolverAlive()
 	if rF == smt.Unsat {
 		x.Trace = append(x.Trace, Decision{Val: 1, N: 2, Fixed: true})
 		x.Assume(c, "branch")
@@ -277,6 +287,18 @@ func (x *Exec) Branch(c *smt.Term) bool {
 	x.ForkSites[x.site()]++
 	x.Assume(c, "branch")
 	return true
+}
+
+func (x *Exec) checkSolverAlive() {
+	if x.S.P.Dead() {
+		x.exit("unwind", "solver exceeded the hard per-query limit and was killed at "+x.site())
+	}
+}
+
+func (x *Exec) checkPathBudget() {
+	if x.Cfg.PathBudgetS > 0 && time.Since(x.started).Seconds() > float64(x.Cfg.PathBudgetS) {
+		x.exit("unwind", fmt.Sprintf("path time budget of %ds exhausted at %s (steps=%d terms=%d merged-paths=%d)", x.Cfg.PathBudgetS, x.site(), x.Steps, x.B.NumTerms(), x.Summ["merged-paths"]))
+	}
 }
 
 // site names the innermost regen/harness source position being executed.
@@ -545,6 +567,11 @@ func (x *Exec) runFrame(fr *Frame) (ret Value) {
 	count := 0
 	for {
 		fr.Visits[block.Index]++
+		if x.loopAssume > 0 && fr.Visits[block.Index] > x.loopAssume+1 && x.P.shouldInterpret(fn) && fn.Pkg != nil && !strings.Contains(fn.Pkg.Pkg.Path(), "zzverif") {
+			// the harness stated this bound as an assumption on the pre-state
+			x.Assumes["stated loop bound"]++
+			x.exit("assume", fmt.Sprintf("stated loop bound %d in %s", x.loopAssume, fn.String()))
+		}
 		if fr.Visits[block.Index] > x.Cfg.LoopBound+1 {
 			x.exit("unwind", fmt.Sprintf("loop bound %d exceeded in %s block %d", x.Cfg.LoopBound, fn.String(), block.Index))
 		}
@@ -574,6 +601,9 @@ func (x *Exec) runFrame(fr *Frame) (ret Value) {
 			count++
 			x.Steps++
 			fr.Cur = ins
+			if x.Steps%20000 == 0 {
+				x.checkPathBudget()
+			}
 			if x.Steps > x.Cfg.MaxSteps {
 				x.exit("unwind", "step budget exceeded")
 			}
